@@ -247,19 +247,35 @@ pub fn scenario(r: &mut Report, seed: u64, g: u64, holders: usize, case_id: u64,
                 arrivals.push(arrival);
                 // half of the payloads repeat the holder's earlier payload byte for byte (a republish)
                 let tag = (case_id, i, if rng.bool() { 0 } else { j + 1 });
+                // a token that must be refused anyway sometimes rides on a payload that is too big as well:
+                // the statement demands 203 for the token, whatever else is wrong with the request
+                let oversize = (mutated || !same_ip) && rng.chance(1, 4);
+                if oversize && matches!(p.kind, 0 | 2) {
+                    r.count("bad_token_on_oversized_payload");
+                }
                 let reply = {
                     let cl = c.as_mut().unwrap_or(&mut clients[i]);
                     let cid = cl.id;
                     match p.kind {
                         0 => {
-                            let v = format!("tok-{tag:?}").into_bytes();
+                            let mut v = format!("tok-{tag:?}").into_bytes();
+                            if oversize {
+                                v.resize(1001 + rng.usize(100), b'x');
+                            }
                             let target = immutable_target(&v);
                             fx.rpc(cl, |t| q_put_immutable(t, &cid, &token, &target, &v))
                         }
                         1 => fx.rpc(cl, |t| q_announce_peer(t, &cid, &[j as u8; 20], 1234, None, &token)),
                         2 => {
-                            let v = b"mut".to_vec();
-                            let salt = format!("{tag:?}").into_bytes();
+                            let mut v = b"mut".to_vec();
+                            let mut salt = format!("{tag:?}").into_bytes();
+                            if oversize {
+                                if rng.bool() {
+                                    v.resize(1001 + rng.usize(100), b'y');
+                                } else {
+                                    salt.resize(65 + rng.usize(10), b's');
+                                }
+                            }
                             let sg = sign_mutable(&signer, 1, &v, Some(&salt));
                             let target = mutable_target(&sg.k, Some(&salt));
                             fx.rpc(cl, |t| q_put_mutable(t, &cid, &token, &target, &v, &sg.k, &sg.sig, 1, Some(&salt), None))
